@@ -456,6 +456,13 @@ def _verify_fn(unit, f, text, base, cfile, outdir, r):
         elif st != 'SUCCESS':
             has_unknown = True
         r.obligations.append(o)
+    undef = [o for o in r.obligations if o['status'] == 'FAILURE' and 'undefined function should be unreachable' in (o['desc'] or '')]
+    if undef:
+        # the lowered text calls something the unit does not define (a helper the recipe does not know): nothing is decided about the
+        # property, and the other failures of this run are consequences of the havocked return value
+        r.obligations = []
+        r.status, r.reason = 'undecided', 'EXTRACTION: the function calls %s, which the unit does not contain' % ', '.join(sorted({str(o['func']) for o in undef}))
+        return r
     if r.failed():
         r.status = 'failed'
     elif has_unknown or status != 'success':
